@@ -897,15 +897,16 @@ def m_big_bitlen(ex, st, args, ins, fn):
     if X is not None:
         ax = X.abs().t
         w = ax.size()
-        # n = BitLen(|x|): a fresh word pinned by  |x| >> n == 0  and (n == 0 or bit n-1 of |x| set)
+        # n = BitLen(|x|): a fresh word pinned by 2^(n-1) <= |x| < 2^n (|x| = 0 for n = 0)
         key = ('bitlen', ax.get_id())
         n = st.ghost.get(key)
         if n is None:
             n = z3.BitVec(ex.fresh_name('bitlen'), 64)
             nw = z3.ZeroExt(w - 64, n) if w > 64 else z3.Extract(w - 1, 0, n)
             one = z3.BitVecVal(1, w)
-            ex.add_constraint(st, z3.And(z3.ULE(n, w - 1), z3.LShR(ax, nw) == 0,
-                                         z3.Or(n == 0, z3.LShR(ax, nw - one) == one)))
+            # 2^(n-1) <= |x| < 2^n through a one-hot decoder of n (cheaper than shifting |x|)
+            ex.add_constraint(st, z3.And(z3.ULE(n, w - 1), z3.ULT(ax, one << nw),
+                                         z3.If(n == 0, ax == 0, z3.ULE(one << (nw - one), ax))))
             st.ghost[key] = n
             st.ghost[('keep', ax.get_id())] = ax
         return n
@@ -1118,6 +1119,13 @@ def m_time_now(ex, st, args, ins, fn):
     c = z3.And(z3.ULT(ns, 1000000000), sec >= 0, sec < (1 << 40))
     ex.add_constraint(st, c)
     return (ns, sec, None)
+
+
+@model('runtime.NumCPU')
+def m_numcpu(ex, st, args, ins, fn):
+    import os
+    ex.models_used.add('runtime.NumCPU (this machine)') if hasattr(ex, 'models_used') else None
+    return os.cpu_count() or 1
 
 
 @model('runtime.SetFinalizer', 'os.Exit', 'runtime.GC', 'runtime/debug.PrintStack', 'time.Sleep')
